@@ -1109,7 +1109,9 @@ class Dict(Mapping, dict):
         attributes = fields.copy()
         if rename:
             rename = list(to_pairs(rename))
-            attributes.update(key for key, value in rename if value in attributes)
+            attributes.update(
+                [key for key, value in dict(rename).items() if value in fields]
+            )
         if omit:
             omit = list(omit)
             attributes.difference_update(omit)
